@@ -2,6 +2,7 @@ package rules
 
 import (
 	"go/ast"
+	"go/token"
 	"go/types"
 	"sort"
 	"strings"
@@ -95,7 +96,7 @@ func c30(r *core.Run) {
 	r.Explanation = "Decided clauses: (R1) metering census: every (function → computation kind / memory-usage kind) metering edge recorded from the reviewed tree still exists (a metering call that is removed, or whose kind disappears from a function, is reported); " +
 		"(R2) interpreter: while and for-in loops call reportLoopIteration inside the loop body on every iteration path; invocation reports the call-depth increment before the call, every return after it passes the decrement, and the decrement (or its defer) is never reached without the increment; " +
 		"(R3) VM/compiler: every loop construct emits InstructionLoop, statements emit InstructionStatement, opLoop/opStatement/invoke meter, and pushCallFrame tests StackDepthLimit before pushing; no peephole pattern contains a metering or jump opcode."
-	r.NotDecided = "termination; that the metered amounts are adequate (e.g. which operand's length a usage is computed from)."
+	r.NotDecided = "termination; that the metered amounts are adequate beyond R4 (R4: a per-append memory usage of a string builder is computed from the length of the value appended)."
 	w := r.W
 	named := func(n string) func(*types.Func) bool {
 		return func(o *types.Func) bool { return o != nil && o.Name() == n }
@@ -299,4 +300,171 @@ func c30(r *core.Run) {
 		}
 	}
 	r.Floor("R3.vm", 6)
+	c30PairedMetering(r)
+}
+
+// c30PairedMetering: R4 — incremental string metering is paired with the bytes written. Wherever a function appends to a
+// strings.Builder and meters memory per append from a length (`UseMemory(… len(y) …)` dominating `builder.WriteString(x)` in
+// the same function body), one of the dominating usages must be computed from the length of the very value written
+// (x and y the same SSA value, or the same field of the same base value). Metering the length of another operand leaves the
+// growth of the result unmetered.
+func c30PairedMetering(r *core.Run) {
+	const rule = "R4.paired"
+	w := r.W
+	isUseMemory := funcOf(mod+"/common", "UseMemory")
+	strip := func(v ssa.Value) ssa.Value {
+		for {
+			switch x := v.(type) {
+			case *ssa.Convert:
+				v = x.X
+			case *ssa.ChangeType:
+				v = x.X
+			default:
+				return v
+			}
+		}
+	}
+	sameValue := func(a, b ssa.Value) bool {
+		a, b = strip(a), strip(b)
+		if a == b || sameLoad(a, b) {
+			return true
+		}
+		// loads of the same field of the same base
+		la, ok1 := a.(*ssa.UnOp)
+		lb, ok2 := b.(*ssa.UnOp)
+		if ok1 && ok2 && la.Op == token.MUL && lb.Op == token.MUL {
+			fa, ok1 := la.X.(*ssa.FieldAddr)
+			fb, ok2 := lb.X.(*ssa.FieldAddr)
+			if ok1 && ok2 && fa.Field == fb.Field && (fa.X == fb.X || sameLoad(fa.X, fb.X)) {
+				return true
+			}
+		}
+		fa, ok1 := a.(*ssa.Field)
+		fb, ok2 := b.(*ssa.Field)
+		if ok1 && ok2 && fa.Field == fb.Field && (fa.X == fb.X || sameLoad(fa.X, fb.X)) {
+			return true
+		}
+		return false
+	}
+	// lenSources: operands of len(...) calls in the backward slice of a value
+	var lenSources func(v ssa.Value, d int, seen map[ssa.Value]bool, out *[]ssa.Value)
+	lenSources = func(v ssa.Value, d int, seen map[ssa.Value]bool, out *[]ssa.Value) {
+		if v == nil || seen[v] || d > 8 {
+			return
+		}
+		seen[v] = true
+		switch x := v.(type) {
+		case *ssa.Call:
+			if b, ok := x.Call.Value.(*ssa.Builtin); ok && b.Name() == "len" {
+				*out = append(*out, x.Call.Args[0])
+				return
+			}
+			for _, a := range x.Call.Args {
+				lenSources(a, d+1, seen, out)
+			}
+		case *ssa.UnOp:
+			if al, ok := x.X.(*ssa.Alloc); ok && x.Op == token.MUL {
+				// a struct literal: values stored into its fields
+				if refs := al.Referrers(); refs != nil {
+					for _, ref := range *refs {
+						switch y := ref.(type) {
+						case *ssa.FieldAddr:
+							if rr := y.Referrers(); rr != nil {
+								for _, s := range *rr {
+									if st, ok := s.(*ssa.Store); ok && st.Addr == y {
+										lenSources(st.Val, d+1, seen, out)
+									}
+								}
+							}
+						case *ssa.Store:
+							if y.Addr == al {
+								lenSources(y.Val, d+1, seen, out)
+							}
+						}
+					}
+				}
+				return
+			}
+			lenSources(x.X, d+1, seen, out)
+		case *ssa.Convert:
+			lenSources(x.X, d+1, seen, out)
+		case *ssa.ChangeType:
+			lenSources(x.X, d+1, seen, out)
+		case *ssa.BinOp:
+			lenSources(x.X, d+1, seen, out)
+			lenSources(x.Y, d+1, seen, out)
+		case *ssa.MakeInterface:
+			lenSources(x.X, d+1, seen, out)
+		}
+	}
+	n := 0
+	for _, fn := range w.SrcFuncs() {
+		if fn.Pkg == nil || !w.InScope(fn.Pkg.Pkg.Path()) {
+			continue
+		}
+		var fns []*ssa.Function
+		var collect func(f *ssa.Function)
+		collect = func(f *ssa.Function) {
+			fns = append(fns, f)
+			for _, a := range f.AnonFuncs {
+				collect(a)
+			}
+		}
+		if fn.Parent() != nil {
+			continue
+		}
+		collect(fn)
+		for _, f := range fns {
+			var uses []ssa.CallInstruction
+			for _, c := range core.Calls(f, false) {
+				if isUseMemory(core.Callee(c)) && len(c.Common().Args) == 2 {
+					uses = append(uses, c)
+				}
+			}
+			if len(uses) == 0 {
+				continue
+			}
+			wi := 0
+			for _, c := range core.Calls(f, false) {
+				o := core.Callee(c)
+				if o == nil || o.Pkg() == nil || o.Pkg().Path() != "strings" || o.Name() != "WriteString" || len(c.Common().Args) < 2 {
+					continue
+				}
+				written := c.Common().Args[1]
+				var doms [][]ssa.Value
+				for _, u := range uses {
+					if !core.Dominates(u, c) {
+						continue
+					}
+					var srcs []ssa.Value
+					lenSources(u.Common().Args[1], 0, map[ssa.Value]bool{}, &srcs)
+					if len(srcs) > 0 {
+						doms = append(doms, srcs)
+					}
+				}
+				if len(doms) == 0 {
+					continue // not the incremental idiom: the total is metered elsewhere
+				}
+				wi++
+				n++
+				ok := false
+				for _, srcs := range doms {
+					for _, s := range srcs {
+						if sameValue(s, written) {
+							ok = true
+						}
+					}
+				}
+				r.Check(ok, rule, core.SSAKey(f)+": WriteString #"+itoa(wi), c.Pos(), "a dominating memory usage is computed from the length of the value written",
+					"bytes are appended to the builder but the dominating memory usage is computed from the length of a different value: the growth of the result is not metered")
+			}
+		}
+	}
+	r.Floor(rule, 5)
+}
+
+func sameLoad(a, b ssa.Value) bool {
+	la, ok1 := a.(*ssa.UnOp)
+	lb, ok2 := b.(*ssa.UnOp)
+	return ok1 && ok2 && la.Op == token.MUL && lb.Op == token.MUL && la.X == lb.X
 }
